@@ -105,8 +105,23 @@ Fixpoint delivered_obs (id : N) (evs : list (event cmsg)) : list N * list N * N 
     | _ => (ix, ps, d)
     end
   end.
-Definition o_delivered (id : N) (evs : list (event cmsg)) : otree :=
-  let '(ix, ps, d) := delivered_obs id evs in T [T (map L ix); T (map L ps); L d].
+(* the last StreamInfo under [id]: (nr_stream_msgs, processed, total) *)
+Fixpoint last_info (id : N) (evs : list (event cmsg)) (cur : option (N * N * N)) : option (N * N * N) :=
+  match evs with
+  | [] => cur
+  | EFrame (FInfo i a b c) :: r => last_info id r (if i =? id then Some (a, b, c) else cur)
+  | _ :: r => last_info id r cur
+  end.
+(* for a query the numbers of its last StreamInfo depend on the batching (it may end while the file is read): not observed *)
+Definition o_info (is_stream : bool) (i : option (N * N * N)) : otree :=
+  match i with
+  | None => T []
+  | Some (a, b, c) => if is_stream then T [L a; L b; L c] else T []
+  end.
+(* [with_info]: only for the first id of a stream (whether a renewed id sees a StreamInfo depends on the batching) *)
+Definition o_delivered (with_info is_stream : bool) (id : N) (evs : list (event cmsg)) : otree :=
+  let '(ix, ps, d) := delivered_obs id evs in
+  T [T (map L ix); T (map L ps); L d; if with_info then o_info is_stream (last_info id evs None) else T []].
 
 Record sess := {
   ss_sv : server cmsg;
@@ -164,9 +179,9 @@ Fixpoint pages_obs (fuel : nat) (sorted : bool) (st : sess) (id start maxr : N) 
     end
   end.
 
-(* searches and lookups are asked in settled states only *)
+(* searches, lookups and stops are asked in settled states only (a raced query may or may not have ended yet) *)
 Definition needs_settled (o : sop) : bool :=
-  match o with SSearch _ _ _ _ | SPages _ _ _ _ | SLookIdx _ _ | SLookTime _ _ => true | _ => false end.
+  match o with SSearch _ _ _ _ | SPages _ _ _ _ | SLookIdx _ _ | SLookTime _ _ | SStop _ => true | _ => false end.
 
 Definition sess_step (sorted : bool) (file : list cmsg) (st0 : sess) (o : sop) : sess * otree :=
   let st := if needs_settled o && negb (ss_loaded st0)
@@ -178,7 +193,7 @@ Definition sess_step (sorted : bool) (file : list cmsg) (st0 : sess) (o : sop) :
           let st2 := with_ids st1 (ss_ids st1 ++ [id]) (ss_created st1 ++ [(id, settle)]) in
           if settle then
             match do_settle sorted file st2 with
-            | Some st3 => (st3, T [L 0; o_delivered id (ss_trace st3)])
+            | Some st3 => (st3, T [L 0; o_delivered true is_stream id (ss_trace st3)])
             | None => (st2, o_panic)
             end
           else (st2, T [L 0; T []])
@@ -190,7 +205,7 @@ Definition sess_step (sorted : bool) (file : list cmsg) (st0 : sess) (o : sop) :
           let st2 := with_ids st1 (set_nth_id (ss_ids st1) (N.to_nat k) nid) (ss_created st1 ++ [(nid, settle)]) in
           if settle then
             match do_settle sorted file st2 with
-            | Some st3 => (st3, T [L 0; o_delivered nid (ss_trace st3)])
+            | Some st3 => (st3, T [L 0; o_delivered false true nid (ss_trace st3)])
             | None => (st2, o_panic)
             end
           else (st2, T [L 0; T []])
